@@ -220,7 +220,9 @@ theorem C18_layerB_shard_holder_enabled {b : BState} (hb : BInv b) (sh : Nat) (h
     refine Or.inr (Or.inl ⟨now, rest, id, rfl, ?_⟩)
     intro v
     simp only [sweeperAct, hs]
-    split <;> exact ⟨_, rfl⟩
+    split
+    · split <;> exact ⟨_, rfl⟩
+    · exact ⟨_, rfl⟩
   | sub now sh' rest id wk =>
     simp only [hs, SPc.shard?, Option.some.injEq] at hsh; subst hsh
     refine Or.inr (Or.inr (Or.inl ⟨now, rest, id, wk, rfl, ?_⟩))
@@ -480,6 +482,11 @@ theorem C18_layerB_shard_lock_bounded {b b' : BState} {v : Option Nat} {sh : Nat
     · exact Or.inr ⟨hown, by simp only [hs, swMeasure]; omega⟩
   | kwRemoveSome now shard rest id wk hg hs => exact Or.inr ⟨hown, by simp only [hs, swMeasure]; omega⟩
   | kwRemoveNone now shard rest id hg hs =>
+    unfold sweepNext
+    split
+    · exact Or.inl rfl
+    · exact Or.inr ⟨hown, by simp only [hs, swMeasure]; omega⟩
+  | kwRemoveSkip now shard rest id wk hg hs =>
     unfold sweepNext
     split
     · exact Or.inl rfl
